@@ -756,14 +756,31 @@ func (g *Gen) send() Op {
 	if len(as) > 0 {
 		id = uint64(g.r.N(len(as) + 2))
 	}
-	to := g.r.Pick("es", "ep", "ev") + fmt.Sprint(id)
+	role := g.r.Pick("es", "ep", "ev")
+	to := role + fmt.Sprint(id)
+	d := fmt.Sprint(g.r.N(5))
+	amt := fmt.Sprint(1 + g.r.N(500))
+	if int(id) < len(as) && g.r.P(65) {
+		// a deposit that matters: the denomination this escrow works with, an amount comparable to the offer
+		a := as[id]
+		if role == "es" {
+			d = fmt.Sprint(denomIdx(a.GetSellingCoin().Denom))
+		} else {
+			d = fmt.Sprint(denomIdx(a.GetPayingCoinDenom()))
+		}
+		if g.r.P(60) {
+			x := mulDiv(a.GetSellingCoin().Amount, g.r.PickI(1, 1, 2, 3), g.r.PickI(1, 2, 3))
+			if x.IsPositive() && x.LT(math.NewIntWithDecimal(1, 22)) {
+				amt = x.String()
+			}
+		}
+	}
 	if g.r.P(15) {
 		to = fmt.Sprintf("u%d", g.r.N(NUsers))
 	}
-	return NewOp("SEND", "from", fmt.Sprint(g.r.N(NUsers)), "to", to, "d", fmt.Sprint(g.r.N(5)), "amt", fmt.Sprint(1+g.r.N(500)))
+	return NewOp("SEND", "from", fmt.Sprint(g.r.N(NUsers-1)), "to", to, "d", d, "amt", amt)
 }
 
-// the operation kind that triggers hook kind k
 var hookTrigger = []string{"CFA", "CFA", "CBA", "CBA", "CAN", "BID", "MOD", "APIADD", "APIUPD", "BLOCK"}
 
 func (g *Gen) listen() Op {
